@@ -13,6 +13,7 @@ use incan_core::lang::surface::constructors::ConstructorId;
 use incan_core::lang::types::collections::{self, CollectionTypeId};
 
 use super::TypeChecker;
+use crate::frontend::typechecker::helpers::ensure_bool_condition;
 
 impl TypeChecker {
     /// Type-check a `match` expression and return its resolved type.
@@ -31,6 +32,13 @@ impl TypeChecker {
         for arm in arms {
             self.symbols.enter_scope(ScopeKind::Block);
             self.check_pattern(&arm.node.pattern, &subject_ty);
+
+            // The guard sees the pattern's bindings and must be a bool.
+            if let Some(guard) = &arm.node.guard {
+                let guard_ty = self.check_expr(guard);
+                let is_compatible = self.types_compatible(&guard_ty, &ResolvedType::Bool);
+                ensure_bool_condition(&guard_ty, guard.span, is_compatible, &mut self.errors);
+            }
 
             let arm_ty = match &arm.node.body {
                 MatchBody::Expr(e) => self.check_expr(e),
